@@ -292,7 +292,7 @@ func (w *World) Drain() time.Duration {
 			w.fatalf("C07: drain did not terminate within 10000 steps (persistence stalled or retry loop never succeeds)")
 		}
 		w.Poll()
-		if !w.ReleaseWakeupPending() && sy.R == nil && w.ReleaseClearedAt.IsZero() {
+		if !w.ReleaseWakeupPending() && sy.R == nil && w.St.Alloc.InUse() == len(w.Live) && w.ReleaseClearedAt.IsZero() {
 			w.ReleaseClearedAt = w.St.Clock.Now()
 		}
 		switch {
